@@ -447,6 +447,62 @@ func SpecMatch(pattern string, hasWild bool, s string) bool {
 //@   safety[C15]
 //@   loop 1 invariant (rs.query == "" ==> rs.e.base == nil) && (rs.query != "" ==> !has(rs.e.queries, rs.query))
 
+// --- system events: reset and token reset (C12, C10, C15) ----------------------------------------
+
+//@ func Conn.TokenReset
+//@   trusted
+//@   assigns nothing
+
+// handleSystemTokenReset: an undecodable payload, an empty subject or an empty list reaches
+// nobody; otherwise every connection is offered exactly the listed token ids and the subject.
+//@ func (*Cache).handleSystemTokenReset
+//@   requires c != nil
+//@   assumes forall k string :: has(c.conns, k) ==> c.conns[k] != nil
+//@   assert[C10] sub.TokenReset#1: arg1 == r.Subject && r.Subject != "" && len(r.TIDs) > 0 &&
+//@       (forall i int :: 0 <= i && i < len(r.TIDs) ==> has(arg0, r.TIDs[i]) && arg0[r.TIDs[i]]) &&
+//@       (forall t string :: has(arg0, t) ==> (exists i int :: 0 <= i && i < len(r.TIDs) && r.TIDs[i] == t))
+//@   safety[C15]
+//@   loop 1 invariant m != nil && len(r.TIDs) > 0 && r.Subject != ""
+//@   loop 1 invariant forall i int :: 0 <= i && i < rangeidx1 ==> has(m, r.TIDs[i]) && m[r.TIDs[i]]
+//@   loop 1 invariant forall t string :: has(m, t) ==> (exists i int :: 0 <= i && i < rangeidx1 && r.TIDs[i] == t)
+//@   loop 2 invariant m != nil && len(r.TIDs) > 0 && r.Subject != "" && (forall k string :: has(c.conns, k) ==> c.conns[k] != nil)
+//@   loop 2 invariant forall i int :: 0 <= i && i < len(r.TIDs) ==> has(m, r.TIDs[i]) && m[r.TIDs[i]]
+//@   loop 2 invariant forall t string :: has(m, t) ==> (exists i int :: 0 <= i && i < len(r.TIDs) && r.TIDs[i] == t)
+
+// forEachMatch: the callback is invoked for a cache entry only if a valid listed pattern
+// matches the entry's resource name (NATS wildcard semantics); invalid patterns match nothing.
+//@ func (*Cache).forEachMatch
+//@   requires c != nil
+//@   assumes forall n string :: has(c.eventSubs, n) ==> c.eventSubs[n] != nil && c.eventSubs[n].cache != nil
+//@   callback cb requires e != nil && e.cache != nil
+//@   callback cb requires[C12] e == eventSub && (exists i int :: 0 <= i && i < len(patterns) && patterns[i].pattern != "" &&
+//@       predPatternInv(patterns[i].pattern, patterns[i].hasWild) &&
+//@       ((!patterns[i].hasWild && resourceName == patterns[i].pattern) || (patterns[i].hasWild && (predNoEmptyTok(resourceName) ==> specMatchFrom(patterns[i].pattern, resourceName, 0, 0)))))
+//@   safety[C15]
+//@   loop 1 invariant forall i int :: 0 <= i && i < len(patterns) ==> patterns[i].pattern != "" && predPatternInv(patterns[i].pattern, patterns[i].hasWild)
+//@   loop 2 invariant forall i int :: 0 <= i && i < len(patterns) ==> patterns[i].pattern != "" && predPatternInv(patterns[i].pattern, patterns[i].hasWild)
+//@   loop 3 invariant forall i int :: 0 <= i && i < len(patterns) ==> patterns[i].pattern != "" && predPatternInv(patterns[i].pattern, patterns[i].hasWild)
+
+// handleSystemReset: listed resource patterns trigger a re-fetch, listed access patterns a
+// re-access, each only for matching entries; a throttle exists exactly when resetThrottle > 0.
+//@ func (*EventSubscription).handleResetResource
+//@   requires e != nil && e.cache != nil
+//@   ensures[C12] len(e.queue) == old(len(e.queue)) + 1
+//@   assigns e.queue, elems(e.queue)
+//@ func (*EventSubscription).handleResetAccess
+//@   requires e != nil && e.cache != nil
+//@   ensures[C06,C12] len(e.queue) == old(len(e.queue)) + 1
+//@   assigns e.queue, elems(e.queue)
+//@ func (*Cache).handleSystemReset
+//@   requires c != nil
+//@   assumes forall n string :: has(c.eventSubs, n) ==> c.eventSubs[n] != nil && c.eventSubs[n].cache != nil
+//@   assert[C12,C19] c.forEachMatch#1: (t != nil) == (c.resetThrottle > 0) && (t != nil ==> predThrottleInv(t) && t.limit == c.resetThrottle && t.running == 0)
+//@   safety[C15]
+//@ closure (*Cache).handleSystemReset#1
+//@   ensures[C12] callcount("handleResetResource") == old(callcount("handleResetResource")) + 1 && callcount("handleResetAccess") == old(callcount("handleResetAccess"))
+//@ closure (*Cache).handleSystemReset#2
+//@   ensures[C06,C12] callcount("handleResetAccess") == old(callcount("handleResetAccess")) + 1 && callcount("handleResetResource") == old(callcount("handleResetResource"))
+
 // --- adding a subscriber (C09, C14, C19) -----------------------------------------------------------
 
 //@ func (*ResourceSubscription).enqueueGetResponse
